@@ -48,6 +48,8 @@ SPEC = {
     'random tree; non-trivial when target is a container. A msgpack case is one msgpack value at the format boundaries '
     '(every int within 40 of a format edge; every tag byte 0x00..0xff x 4 bodies for the decoder). For trees without JAX leaves '
     'the dict objects written by msgpack_serialize(in_place=True) are compared with the heap model (post-order numbering). '
+    'A robustness case is the bytes flax wrote for a tree, truncated / extended / with one bit flipped: both sides must reject '
+    'truncated and extended strings, and agree on the restored tree whenever both accept a corrupted one. '
     'distinct = distinct canonical JSON of the case.'
   ),
   'trusted_base': [
@@ -68,7 +70,14 @@ SPEC = {
     '(converted, then restored by field name; a malformed one raises an error that need not name the path)',
     'a plain dict directly inside a FrozenDict is observed as a FrozenDict (FrozenDict freezes nested dicts)',
   ],
-  'model_partial': [],
+  # nothing is `…_partial` for lack of proof; what is deliberately outside the theorems:
+  'model_partial': [
+    'statedict_roundtrip_orig_partial: by design the statement about the code as shipped (before fix 2071f38); '
+    'the full statement statedict_roundtrip holds for the repaired code',
+    'not modelled (hence no theorem): NumPy-side consistency checks of _ndarray_from_bytes (dtype name known, buffer size '
+    'matches shape) — on corrupted bytes the model may accept what NumPy rejects (counted as robust_corrupted real-err/model-ok); '
+    'float32 and reserved ext codes in the decoder; jax.tree_util.tree_map is modelled as a deep copy of dicts (copyH)',
+  ],
 }
 
 DEFAULT_T = serialization.MAX_CHUNK_SIZE
@@ -1105,6 +1114,66 @@ def _raw_describe(x):
   return {'unsupported': type(x).__name__}
 
 
+def _odd_dtype(j):
+  """does a (model) tree mention a dtype name outside the generated set: how NumPy reads such a name
+  (sub-array prefixes, aliases, byte-order marks) is not modelled"""
+  if isinstance(j, dict):
+    # bool and the sub-byte dtypes have non-canonical byte patterns that NumPy normalises on scalar access
+    if 'nd' in j:
+      return j['nd']['dtype'] not in ALL_DTYPES or j['nd']['dtype'] in _LOWBITS
+    if 'np' in j:
+      return j['np']['dtype'] not in ALL_DTYPES or j['np']['dtype'] in _LOWBITS
+    return any(_odd_dtype(v) for _, v in j.get('kv', []) + j.get('d', [])) or any(_odd_dtype(v) for v in j.get('xs', []))
+  return False
+
+
+def check_robust_batch(ctx, drv, cases, rng):
+  """truncated / extended / corrupted versions of the bytes flax writes. Error class only:
+  a truncated or extended byte string must be rejected by both sides (msgpack: incomplete input /
+  ExtraData); for a corrupted one, whenever both sides accept they must restore the same tree
+  (the model does not check NumPy's dtype-name / buffer-size consistency, so acceptance itself is
+  only counted)."""
+  reqs, recs = [], []
+  for case in cases:
+    desc = fix_frozen(case['tree'])
+    obj = build(desc)
+    D = describe(obj)
+    r = call(serialization.to_bytes, obj)
+    if r[0] != 'ok':
+      continue
+    b = r[1]
+    variants = []
+    cuts = {0, len(b) - 1, rng.randrange(len(b)), rng.randrange(len(b))} if len(b) > 0 else set()
+    for c in sorted(cuts):
+      variants.append(('truncated', b[:c]))
+    variants.append(('trailing', b + rng.randbytes(rng.choice([1, 1, 2, 5]))))
+    variants.append(('trailing', b + b))
+    for _ in range(3):
+      i = rng.randrange(len(b))
+      variants.append(('corrupted', b[:i] + bytes([b[i] ^ (1 << rng.randrange(8))]) + b[i + 1 :]))
+    for kind, vb in variants:
+      rr = call(serialization.from_bytes, obj, vb)
+      recs.append((kind, vb, rr, D))
+      reqs.append(('from_bytes', [D, vb.hex()]))
+  outs = drv.run(reqs)
+  for (kind, vb, rr, D), m in zip(recs, outs):
+    case = {'kind': 'robust', 'variant': kind, 'target': D, 'hex': vb.hex()}
+    ctx.case({'k': 'robust', 'v': kind, 'hex': vb.hex()}, nontrivial=True)
+    real_ok, model_ok = rr[0] == 'ok', m[0] == 'ok'
+    ctx.count('robust_' + kind, ('real-ok' if real_ok else 'real-err') + '/' + ('model-ok' if model_ok else 'model-err'))
+    mism = None
+    if kind in ('truncated', 'trailing'):
+      if real_ok or model_ok:
+        mism = f'{kind} bytes accepted: implementation {"ok" if real_ok else rr[1]}, model {"ok" if model_ok else m[1]}'
+    elif real_ok and model_ok and _odd_dtype(m[1]):
+      ctx.count('robust_corrupted_skipped', 'unknown-or-noncanonical-dtype')  # NumPy parses e.g. b'5int32' its own way, normalises bool bytes
+    elif real_ok and model_ok and norm(describe(rr[1])) != norm(m[1]):
+      mism = f'both accept the corrupted bytes but restore different trees: implementation {str(norm(describe(rr[1])))[:150]}, model {str(norm(m[1]))[:150]}'
+    if mism:
+      ctx.disagreements_checked += 1
+      ctx.violation('robust-' + kind + '-mismatch', mism + f' — {len(vb)} bytes', case, concrete=False)
+
+
 # --- exhaustive small scopes -----------------------------------------------------------------------
 
 
@@ -1227,6 +1296,9 @@ def run(ctx):
   for i in range(0, len(leaf_cases), 150):
     check_roundtrip_batch(ctx, drv, leaf_cases[i : i + 150], '')
 
+  # truncated / extended / corrupted byte strings
+  check_robust_batch(ctx, drv, cases[: (150 if not thorough else 3000)], rng)
+
   # mismatch stream: one structural edit per case
   n_mm = 1500 if not thorough else 30000
   mm = []
@@ -1296,6 +1368,17 @@ def _run_case(ctx, drv, obj, tag=''):
     check_restore_batch(ctx, drv, [case], tag)
   elif kind == 'mval':
     check_msgpack_batch(ctx, drv, [case['v']], tag)
+  elif kind == 'robust':
+    reqs = [('from_bytes', [case['target'], case['hex']])]
+    m = drv.run(reqs)[0]
+    rr = call(serialization.from_bytes, build(case['target']), bytes.fromhex(case['hex']))
+    real_ok, model_ok = rr[0] == 'ok', m[0] == 'ok'
+    if case['variant'] in ('truncated', 'trailing'):
+      bad = real_ok or model_ok
+    else:
+      bad = real_ok and model_ok and not _odd_dtype(m[1]) and norm(describe(rr[1])) != norm(m[1])
+    if bad:
+      ctx.violation(tag + 'robust-' + case['variant'] + '-mismatch', f'implementation {rr[:2]}, model {str(m)[:100]}', case, concrete=False)
   elif kind == 'decode':
     check_decoder_tags(ctx, drv)
   else:
